@@ -38,6 +38,12 @@ ASSUMPTIONS = [
 ]
 
 FUEL_LIMIT = 30_000_000
+# a case that exhausts FUEL_LIMIT is run once more with this (50x) budget: only
+# if that is exhausted too is it reported as "did not return". Slow by design
+# (an exponential dynamic programme over ~18 groups) is not stuck.
+FUEL_CONFIRM = 1_500_000_000
+# a "did not return" failure is not shrunk (every candidate would cost minutes)
+NO_SHRINK = "did not return within the step budget"
 
 PRESETS = [
     "greedy", "eager", "opportunistic", "optimal", "dp",
@@ -180,7 +186,9 @@ def strategy(tier, sub=None):
 
 
 def budget(tier, sub=None):
-    return {"examples": 16000 if tier == "quick" else 320000, "shards": 16}
+    # (case_seconds: the wall-clock allowance of ONE case, generous because a case that
+    # exhausts the first step budget is re-run with a 50x budget, which takes minutes)
+    return {"examples": 16000 if tier == "quick" else 320000, "shards": 16, "case_seconds": 1500, "timeout": 3000 if tier == "quick" else 8 * 3600}
 
 
 def pattern(inputs, output, sizes):
@@ -356,8 +364,14 @@ def run_case(spec, sub=None):
         if e == "partial":
             with warnings.catch_warnings():
                 warnings.simplefilter("ignore")
+                # (the remaining tensors are contracted in ONE step resolved by
+                # ``optimize``; the default 'auto-hq' runs an exponential dynamic
+                # programme there, slow by design, so beyond 9 of them the
+                # completion is asked of 'greedy')
+                left = n - min(spec["cut"], len(path))
+                kw_ = {"optimize": "greedy"} if left > 9 else {}
                 return "tree", ctg.ContractionTree.from_path(
-                    inputs, output, sizes, path=path[: spec["cut"]], autocomplete=True
+                    inputs, output, sizes, path=path[: spec["cut"]], autocomplete=True, **kw_
                 )
         if e == "pair":
             if n < 3 or not spec["edge"]:
@@ -396,16 +410,25 @@ def run_case(spec, sub=None):
             )
 
     fuel = Fuel(FUEL_LIMIT)
+    slow = False
     try:
         with fuel:
             with warnings.catch_warnings():
                 warnings.simplefilter("ignore")
                 ok, res = guarded(finder)
-    except FuelExhausted as e:
-        ok, res = False, None
-        viol.append(
-            f"{fam}:{spec.get('name', spec['entry'])} did not return within the step budget ({e}) on {n} tensors"
-        )
+    except FuelExhausted:
+        slow = True
+        fuel = Fuel(FUEL_CONFIRM)
+        try:
+            with fuel:
+                with warnings.catch_warnings():
+                    warnings.simplefilter("ignore")
+                    ok, res = guarded(finder)
+        except FuelExhausted as e:
+            ok, res = False, None
+            viol.append(
+                f"{fam}:{spec.get('name', spec['entry'])} did not return within the step budget ({e}) on {n} tensors"
+            )
     what = f"{fam}:{spec.get('name', '')}:{spec['entry']}"
     if not viol:
         if not ok:
@@ -456,4 +479,6 @@ def run_case(spec, sub=None):
         cls.append("skipped")
     special = bool(nc & {"disconnected", "hyper", "repeat", "scalar", "on_all", "single_tensor"}) or n <= 2
     nontrivial = (not skipped) and (special or fam == "hyper")
+    if slow and not viol:
+        cls = list(cls) + ["slow_not_stuck"]
     return Outcome(viol, nontrivial, cls, {"max_fuel": fuel.used, "fuel_total": fuel.used})
